@@ -123,7 +123,7 @@ static int do_io(MPI_File fh, bool wr, bool at, bool coll, MPI_Offset offset, vo
         site = lib_site();
         int nth = 0;
         if (g->record_iocalls) {
-            for (auto &c : g->iocalls) if (c.rank == cur_rank() && c.op == cur_op()) nth++;
+            for (auto &c : g->iocalls) if (c.rank == cur_rank() && c.op == cur_op() && c.bytes > 0) nth++;
             g->iocalls.push_back(IoCall{cur_rank(), cur_op(), nth, nm, site, (long)nbytes, wr});
         }
         if (Fault *ft = match_fault(F_IO_DATA)) {
@@ -131,6 +131,11 @@ static int do_io(MPI_File fh, bool wr, bool at, bool coll, MPI_Offset offset, vo
             rc = make_errcode(ft->errclass);
             ev("io-fault", ft->errclass, (long)nbytes);
         }
+    }
+    if (rc == MPI_SUCCESS && nbytes == 0 && coll) {   // zero-byte participation in a collective transfer: may fail as well
+        site = lib_site(); int nth = 0;
+        if (g->record_iocalls) { for (auto &c : g->iocalls) if (c.rank == cur_rank() && c.op == cur_op() && c.bytes == 0) nth++; g->iocalls.push_back(IoCall{cur_rank(), cur_op(), nth, nm, site, 0, wr}); }
+        if (Fault *ft = match_fault(F_IO_ZERO)) { ft->mpi_call = nm; ft->site = site; ft->bytes = 0; rc = make_errcode(ft->errclass); ev("io-fault", ft->errclass, 0L); }
     }
     if (rc == MPI_SUCCESS && nbytes > 0) {
         long long esz = v.etype->size;
